@@ -803,6 +803,10 @@ def oom_obligations(pid, tier, seed):
                 pre = ['0 <= op < %d' % h_oom.GROUPS[g], '0 <= n <= %d' % h_oom.NMAX]
                 obs.append(dict(id='%s/%s/n%d/%s' % (pid, kind, n, g), mod='h_oom', fn='oom_step', nk=n, args=args, pre=pre,
                                 params=dict(family='OO', kind=kind, n=n, group=g), timeout=t))
+    from harness import h_oom as _h
+    obs.append(dict(id='%s/fs/Bucket/fromBytes' % pid, mod='h_oom', fn='oom_fs', nk=0, args=[('s0', 'int'), ('s1', 'int'), ('n', 'int')],
+                    pre=['0 <= s0 < %d' % len(_h.FS_SIZES), '0 <= s1 < %d' % len(_h.FS_SIZES), '0 <= n <= %d' % _h.NMAX],
+                    params=dict(family='fs'), timeout=t))
     bounds.update(per_condition_timeout_s=t, failing_allocation='index solver-chosen among the allocations the call makes on the path (counted by a '
                   'dry run on a twin), capped at %d' % h_oom.NMAX)
     return {'obligations': obs, 'bounds': bounds}
@@ -1379,7 +1383,7 @@ PROPS = {
                                      'in the quick tier)'],
     ),
     'C17': dict(
-        families=['OO'],
+        families=['OO', 'fs'],
         asan=True,
         hook=True,
         gen=lambda tier, seed: oom_obligations('C17', tier, seed),
